@@ -57,9 +57,12 @@ class IsPathIgnored:
     types = {"path": "Path", "subset_files": "Optional[set[Path]]", "include_submodules": "bool",
              "include_meson_subprojects": "bool", "include_reuse_tomls": "bool", "vcs_strategy": "Optional[VCS]",
              "return": "bool"}
-    observe = {"name": lambda path: path.name, "parent_name": lambda path: parent_name(path),
-               "is_symlink": lambda path: path.is_symlink(), "is_file": lambda path: path.is_file(),
-               "is_dir": lambda path: path.is_dir(), "stat_fails": lambda path: stat_fails(path),
+    observe = {"name": lambda path: path.name,
+               "parent_name": lambda path: parent_name(path),
+               "is_symlink": lambda path: path.is_symlink(),
+               "is_file": lambda path: path.is_file(),
+               "is_dir": lambda path: path.is_dir(),
+               "stat_fails": lambda path: stat_fails(path),
                "size": lambda path: path.stat().st_size}
 
     def pre(path):
